@@ -1,4 +1,8 @@
 pub mod c01;
+pub mod c06;
+pub mod c07;
+pub mod c11;
+pub mod c15;
 pub mod c13;
 pub mod common;
 
@@ -8,6 +12,9 @@ pub fn run(id: &str, tier: &str) -> i32 {
     let rep = Report::new(id, tier);
     match id {
         "C01" => c01::run(&rep),
+        "C07" => c07::run(&rep),
+        "C11" => c11::run(&rep),
+        "C15" => c15::run(&rep),
         "C13" => c13::run(&rep),
         _ => {
             eprintln!("unknown property {id}");
